@@ -191,6 +191,8 @@ def execute(scn, L):
 
         return 'ok'
 
+    out.probe('grammar_rejects' if parsed is None else 'grammar_accepts')
+
     if parsed is None:
         out.states.add('%s|reject|%s' % (ctx, symclass()))
 
